@@ -205,6 +205,8 @@ func commands() []*Config {
 		mk("bars", true, false, cat([]string{"bars"}, t...)...),
 		mk("bars-stacked", true, false, cat([]string{"bars", "-s"}, t...)...),
 		mk("analyze", false, false, cat([]string{"analyze", "-x"}, cat(m, "-e", "{3}")...)...),
+		mk("analyze-reverse", false, false, cat([]string{"analyze", "-x", "--reverse", "-q", "50", "-q", "99"}, cat(m, "-e", "{3}")...)...),
+		mk("histo-all-extra", true, false, cat([]string{"histo", "-a", "-x", "--atleast", "2"}, cat(m, "-e", "{2}", "-e", "{3}")...)...),
 		mk("reduce", true, false, cat([]string{"reduce", "--group", "{1}", "--accumulator", "total={sumi {.} {3}}", "--accumulator", "n={sumi {.} 1}"}, m...)...),
 		mk("reduce-nogroup", true, false, cat([]string{"reduce", "--accumulator", "total={sumi {.} {3}}", "--accumulator", "hi={maxi {.} {3}}"}, m...)...),
 		mk("reduce-ordered", true, true, cat([]string{"reduce", "--group", "{1}", "--accumulator", "last={3}", "--accumulator", "cat={.}{3}"}, m...)...),
@@ -384,7 +386,7 @@ func main() {
 		Properties: []string{"C03"},
 		Level:      "model_checking",
 		Rule: func(prop, tier string) string {
-			return "the real command functions (histo, table, heatmap, spark, bars stacked/grouped, analyze -x, reduce with and without groups, reduce with order-sensitive accumulators) run in-process on the controlled runtime over 4 input lines on the virtual file system; for every tuning variant (workers 1-2, batch 1-3, readers 1-2, 1-3 files, file order and division of the lines) every schedule with at most B deviations (quick: B=2 for the variant with 2 workers, 2 readers and 2 files of each command and B=1 for the other variants; thorough: B=2 for all variants and B=3 for that variant of heatmap, spark --cols 1 and histo) (preemptions, render-timer firings, non-sorted map iteration orders in aggregation, csv, renderers and cmd) is executed; snapshot stdout (minus the transfer-rate line), CSV export and exit status must be byte-identical to the sequential default-schedule baseline. States = distinct (command, output) outcomes; non-trivial = at least one goroutine switch."
+			return "the real command functions (histo, histo -a -x --atleast, table, heatmap, spark, bars stacked/grouped, analyze -x, analyze -x --reverse -q, reduce with and without groups, reduce with order-sensitive accumulators) run in-process on the controlled runtime over 4 input lines on the virtual file system; for every tuning variant (workers 1-2, batch 1-3, readers 1-2, 1-3 files, file order and division of the lines) every schedule with at most B deviations (quick: B=2 for the variant with 2 workers, 2 readers and 2 files of each command and B=1 for the other variants; thorough: B=2 for all variants and B=3 for that variant of heatmap, spark --cols 1 and histo) (preemptions, render-timer firings, non-sorted map iteration orders in aggregation, csv, renderers and cmd) is executed; snapshot stdout (minus the transfer-rate line), CSV export and exit status must be byte-identical to the sequential default-schedule baseline. States = distinct (command, output) outcomes; non-trivial = at least one goroutine switch."
 		},
 		Assumptions: func(string) []string {
 			return []string{"the baseline's correctness against an independent reference is decided by the cligrid harness on the real binary", "stdout is a file, so the commands select the buffered (snapshot) terminal", "map iteration orders: every permutation up to 3 keys, sorted/reverse/rotations beyond"}
